@@ -101,4 +101,62 @@ Supported(s) == CASE s.cmd.kind = "null" -> TRUE
                   [] s.cmd.kind = "time" -> s.cmd.spec
                   [] s.cmd.kind = "insert" -> (s.cmd.cancel \/ ~s.cmd.program \/ s.cmd.immediate \/ s.cmd.spec)
                   [] OTHER -> FALSE
+
+(***************************************************************************)
+(* Comparison of the getters of a decoded object (record g as logged by    *)
+(* the harness) with an abstract section: the first field that differs,    *)
+(* or "".  Fields the API documents as meaningless under a flag are not    *)
+(* compared.                                                               *)
+(***************************************************************************)
+InsertDiff(g, c) ==
+  IF g.eid # c.eid THEN "insert-event-id"
+  ELSE IF g.cancel # c.cancel THEN "insert-cancel"
+  ELSE IF c.cancel THEN ""
+  ELSE IF g.out # c.out THEN "insert-out-of-network"
+  ELSE IF g.program # c.program THEN "insert-program-splice"
+  ELSE IF g.hasdur # c.hasdur THEN "insert-duration-flag"
+  ELSE IF g.immediate # c.immediate THEN "insert-immediate"
+  ELSE IF ~c.program /\ Len(g.comps) # Len(c.comps) THEN "insert-component-count"
+  ELSE IF ~c.program /\ \E i \in 1..Len(c.comps) : g.comps[i].tag # c.comps[i].tag THEN "insert-component-tag"
+  ELSE IF ~c.program /\ ~c.immediate /\ \E i \in 1..Len(c.comps) : g.comps[i].haspts # c.comps[i].spec THEN "insert-component-time-flag"
+  ELSE IF ~c.program /\ ~c.immediate /\ \E i \in 1..Len(c.comps) : c.comps[i].spec /\ g.comps[i].pts # Mod33(c.comps[i].pts) THEN "insert-component-time"
+  ELSE IF c.hasdur /\ g.autoret # c.autoret THEN "insert-auto-return"
+  ELSE IF c.hasdur /\ g.dur # Mod33(c.dur) THEN "insert-duration"
+  ELSE IF g.upid # c.upid THEN "insert-unique-program-id"
+  ELSE IF g.avail # c.avail \/ g.avails # c.avails THEN "insert-avails"
+  ELSE ""
+SegDiff(g, d) ==
+  IF g.eid # d.eid THEN "seg-event-id"
+  ELSE IF g.cancel # d.cancel THEN "seg-cancel"
+  ELSE IF ~g.backref THEN "seg-does-not-refer-to-its-signal"
+  ELSE IF d.cancel THEN ""
+  ELSE IF g.progseg # d.progseg THEN "seg-program-segmentation"
+  ELSE IF g.hasdur # d.hasdur THEN "seg-duration-flag"
+  ELSE IF g.dnr # d.dnr THEN "seg-delivery-not-restricted"
+  ELSE IF ~d.dnr /\ (g.web # d.web \/ g.noblk # d.noblk \/ g.arch # d.arch \/ g.dev # d.dev) THEN "seg-restriction-flags"
+  ELSE IF ~d.progseg /\ Len(g.comps) # Len(d.comps) THEN "seg-component-count"
+  ELSE IF ~d.progseg /\ \E i \in 1..Len(d.comps) : g.comps[i].tag # d.comps[i].tag THEN "seg-component-tag"
+  ELSE IF ~d.progseg /\ \E i \in 1..Len(d.comps) : g.comps[i].off # Mod33(d.comps[i].off) THEN "seg-component-offset"
+  ELSE IF d.hasdur /\ g.dur # Mod40(d.dur) THEN "seg-duration"
+  ELSE IF g.upidtype # d.upidtype THEN "seg-upid-type"
+  ELSE IF d.upidtype # 13 /\ g.upid # d.upid THEN "seg-upid"
+  ELSE IF d.upidtype = 13 /\ Len(g.mid) # Len(d.mid) THEN "seg-mid-count"
+  ELSE IF d.upidtype = 13 /\ \E i \in 1..Len(d.mid) : g.mid[i].type # d.mid[i].type \/ g.mid[i].upid # d.mid[i].upid THEN "seg-mid-entry"
+  ELSE IF g.type # d.type THEN "seg-type-id"
+  ELSE IF g.segnum # d.segnum \/ g.segexp # d.segexp THEN "seg-segment-numbers"
+  ELSE IF g.hassub # d.hassub THEN "seg-has-sub-segments"
+  ELSE IF d.hassub /\ (g.subnum # d.subnum \/ g.subexp # d.subexp) THEN "seg-sub-segment-numbers"
+  ELSE ""
+SegsOf(s) == SelectSeq(s.descs, LAMBDA d : d.kind = "seg")
+RECURSIVE FirstSegDiff(_, _, _)
+FirstSegDiff(gs, ds, i) == IF i > Len(ds) THEN "" ELSE IF SegDiff(gs[i], ds[i]) # "" THEN SegDiff(gs[i], ds[i]) ELSE FirstSegDiff(gs, ds, i + 1)
+Getters(g, s) ==
+  IF g.tier # s.tier THEN "tier"
+  ELSE IF g.cmdtype # CmdType(s.cmd) THEN "command-type"
+  ELSE IF g.haspts # CmdHasPts(s.cmd) \/ g.cmd_haspts # CmdHasPts(s.cmd) THEN "has-pts"
+  ELSE IF CmdHasPts(s.cmd) /\ g.cmd_pts # CmdPts(s.cmd) THEN "command-pts"
+  ELSE IF CmdHasPts(s.cmd) /\ g.pts # SignalPts(s) THEN "signal-pts-adjustment"
+  ELSE IF s.cmd.kind = "insert" /\ InsertDiff(g.insert, s.cmd) # "" THEN InsertDiff(g.insert, s.cmd)
+  ELSE IF Len(g.descs) # Len(SegsOf(s)) THEN "descriptor-count"
+  ELSE FirstSegDiff(g.descs, SegsOf(s), 1)
 =============================================================================
